@@ -293,13 +293,13 @@ Section GoodEv.
     destruct (nth_error (st_heap st) fr) as [cur|]; [|inversion H; auto with memo].
     destruct (nth_error (st_heap st) (if same_fn cur d env then fr else env)) as [pf|];
       [|inversion H; auto with memo].
-    destruct (negb (length args =? length (fd_params fd))).
-    { inversion H; subst. split; simpl; [discriminate|].
+    destruct (call_shape (fd_params fd) (map fst args)) as [[[cps cpv] dots]|].
+    2:{ inversion H; subst. split; simpl; [discriminate|].
       constructor; [|constructor]. apply node_all_call. split; [|constructor].
       repeat split; try discriminate; auto. }
     match type of H with context [bind_params ?a ?b ?c ?d ?e ?f ?g] => destruct (bind_params a b c d e f g) as [before tr st2|before tr st2|] eqn:B end.
     - apply bind_params_ok in B. destruct B as [-> ->].
-      destruct (ev st2 (length (st_heap st)) (fd_body fd)) as [rb st3] eqn:EB.
+      match type of H with context [ev ?s2 ?n2 (fd_body fd)] => destruct (ev s2 n2 (fd_body fd)) as [rb st3] eqn:EB end.
       pose proof (Hev _ _ _ _ _ EB) as [GA GB].
       destruct (r_oc rb) as [v| |]; try (inversion H; subst; split; auto; fail).
       simpl in H.
@@ -360,7 +360,9 @@ Proof.
   assert (Hev : forall st fr e r st', eval f on defs st fr e = (r, st') -> good r) by (intros; eapply IH; eauto).
   simpl in H. destruct e.
   - inversion H; auto with memo.
-  - destruct (get defs (st_heap st) fr x) eqn:G; inversion H; subst; auto with memo. eapply get_good; eauto.
+  - destruct (get defs (st_heap st) fr x) eqn:G; inversion H; subst; auto with memo.
+    + eapply get_good; eauto.
+    + apply (good_access1 (OVal (VErr err_msg)) false x true).
   - destruct (eval f on defs st fr e) as [r1 st1] eqn:E1. pose proof (Hev _ _ _ _ _ E1).
     destruct (r_oc r1) as [v| |]; try (inversion H; subst; auto; fail).
     destruct (is_err v); [inversion H; subst; auto with memo|].
@@ -410,6 +412,8 @@ Proof.
   - inversion H; auto with memo.
   - inversion H; subst. split; simpl; [intros; lia | repeat constructor].
   - destruct (del_walk _ _ _ _); inversion H; subst; (split; simpl; [intros; lia | repeat constructor]).
+  - destruct (eval f on defs st fr e) as [r1 st1] eqn:E1. pose proof (Hev _ _ _ _ _ E1).
+    destruct (r_oc r1) as [v| |]; inversion H; subst; auto with memo.
 Qed.
 
 (* ================================================================ the four mechanism theorems *)
@@ -612,11 +616,13 @@ Section LoggedEv.
     destruct (nth_error (st_heap st) fr) as [cur|]; [|inversion H; subst; apply wl_same; auto].
     destruct (nth_error (st_heap st) (if same_fn cur d env then fr else env)) as [pf|];
       [|inversion H; subst; apply wl_same; auto].
-    destruct (negb (length args =? length (fd_params fd))); [inversion H; subst; apply wl_same; auto|].
+    destruct (call_shape (fd_params fd) (map fst args)) as [[[cps cpv] dots]|]; [|inversion H; subst; apply wl_same; auto].
     match type of H with context [bind_params ?a ?b ?c ?d ?e ?f ?g] =>
-      pose proof (bind_params_cache a d e b c f g) as BC; destruct (bind_params a b c d e f g) as [before tr st2|before tr st2|] end.
-    - simpl in BC.
-      destruct (ev st2 (length (st_heap st)) (fd_body fd)) as [rb st3] eqn:EB.
+      pose proof (bind_params_cache a d e b c f g) as BC0; destruct (bind_params a b c d e f g) as [before tr st2a|before tr st2|] end.
+    - simpl in BC0.
+      match type of H with context [ev ?s2 ?n2 (fd_body fd)] =>
+        assert (BC : st_cache s2 = st_cache st) by (destruct dots; simpl; auto);
+        destruct (ev s2 n2 (fd_body fd)) as [rb st3] eqn:EB end.
       pose proof (Hev _ _ _ _ _ EB) as GB.
       assert (INNER : forall d0 lg ms, writes_logged (mkRes (r_oc rb) false (r_out rb) lg
                   [EvCall (fd_key fd) (map fst args) (tr ++ r_tr rb) before (before + r_miss rb)
@@ -634,7 +640,7 @@ Section LoggedEv.
         * right. subst ce. cbn [r_tr]. rewrite stores_of_single, ev_stores_call. simpl. auto.
       + inversion H; subst. intros ce Hce. destruct (GB _ Hce) as [A|A]; auto. left. rewrite <- BC. auto.
       + inversion H; subst. intros ce Hce. destruct (GB _ Hce) as [A|A]; auto. left. rewrite <- BC. auto.
-    - simpl in BC. inversion H; subst. apply wl_same. auto.
+    - simpl in BC0. inversion H; subst. apply wl_same. auto.
     - inversion H; subst. apply wl_same. auto.
   Qed.
 End LoggedEv.
@@ -699,4 +705,6 @@ Proof.
   - inversion H; apply wl_same; auto.
   - inversion H; apply wl_same; auto.
   - destruct (del_walk _ _ _ _); inversion H; subst; intros ce Hce; simpl in Hce; contradiction.
+  - destruct (eval f on defs st fr e) as [r1 st1] eqn:E1. pose proof (Hev _ _ _ _ _ E1).
+    destruct (r_oc r1) as [v| |]; inversion H; subst; auto; apply wl_with_oc; auto.
 Qed.
